@@ -214,3 +214,45 @@ func (s *Sim) RecvRelayer(p *Pkt) *core.Account {
 	}
 	return nil
 }
+
+// UpgradeClientRevisionRoundTrip: see core.World.UpgradeTMRevisionRoundTrip.
+func (s *Sim) UpgradeClientRevisionRoundTrip(n, of *core.Node) error {
+	err := s.W.UpgradeTMRevisionRoundTrip(n, of, 14*24*time.Hour)
+	s.logf("client for %s on %s upgraded into the next revision and back (err=%v)", of.Name, n.Name, err)
+	return err
+}
+
+// GovClientOp picks one of the governance operations on the client n keeps for `of`: toggle round trip, upgrade to a fresh
+// anchor, upgrade into the next revision and back.
+func (s *Sim) GovClientOp(n, of *core.Node) error {
+	switch s.Rng.Intn(3) {
+	case 0:
+		return s.ToggleRoundTrip(n, of)
+	case 1:
+		return s.UpgradeClient(n, of)
+	}
+	return s.UpgradeClientRevisionRoundTrip(n, of)
+}
+
+// CrossRelayers re-registers every relayer on n so that its address on counterparty `chain` stays its own, while its address on
+// every OTHER counterparty is the NEXT relayer's address: the same address string then appears under two relayers, for
+// different chains. A lookup of "the relayer whose address on chain X is A" has exactly one right answer.
+func (s *Sim) CrossRelayers(n *core.Node, chain string) {
+	for i, r := range s.W.Relayers {
+		next := s.W.Relayers[(i+1)%len(s.W.Relayers)]
+		var chains, addrs []string
+		for _, o := range s.W.Nodes {
+			if o == n {
+				continue
+			}
+			chains = append(chains, o.Name)
+			if o.Name == chain {
+				addrs = append(addrs, r.Bech32())
+			} else {
+				addrs = append(addrs, next.Bech32())
+			}
+		}
+		n.App.XIBCKeeper.ClientKeeper.RegisterRelayers(n.Ctx(), r.Bech32(), chains, addrs)
+	}
+	s.logf("registry on %s: addresses for the counterparties other than %s crossed between relayers", n.Name, chain)
+}
